@@ -57,6 +57,10 @@ type kvElection struct {
 	ctx    context.Context
 	cancel context.CancelFunc
 
+	// termCancel cancels the context handed to the OnPromote callback of the
+	// current leadership term; it is invoked whenever the term ends.
+	termCancel context.CancelFunc
+
 	onPromote func(ctx context.Context, token string)
 	onDemote  func()
 
@@ -427,6 +431,11 @@ func (e *kvElection) becomeLeader(token string, rev uint64) {
 				zap.String("token", token),
 			)...,
 		)
+		// The callback's context ends with the term (demotion for any reason,
+		// Stop), not only with the whole election.
+		promoteCtx, cancel := context.WithCancel(e.ctx)
+		e.termCancel = cancel
+		onPromote := e.onPromote
 		e.wg.Add(1)
 		go func() {
 			defer e.wg.Done()
@@ -440,9 +449,8 @@ func (e *kvElection) becomeLeader(token string, rev uint64) {
 					)
 				}
 			}()
-			promoteCtx, cancel := context.WithCancel(e.ctx)
 			defer cancel()
-			e.onPromote(promoteCtx, token)
+			onPromote(promoteCtx, token)
 		}()
 	}
 }
@@ -528,6 +536,10 @@ func (e *kvElection) becomeFollower() bool {
 	if wasLeader {
 		e.recordLeaderDuration()
 		e.leaderStartTime.Store(time.Time{})
+	}
+	if e.termCancel != nil {
+		e.termCancel()
+		e.termCancel = nil
 	}
 
 	e.recordTransition(fromState, StateFollower)
